@@ -47,6 +47,13 @@ pub struct SchedCfg {
     pub max_steps: u64,
     #[serde(default, skip_serializing_if = "Option::is_none")]
     pub replay: Option<Vec<u32>>,
+    /// per-mille probability that an un-timed mailbox send yields between slot reservation and push
+    #[serde(default, skip_serializing_if = "is_zero")]
+    pub split_permille: u32,
+}
+
+fn is_zero(x: &u32) -> bool {
+    *x == 0
 }
 
 pub struct RunResult {
@@ -288,6 +295,10 @@ pub fn execute(sc: &Scenario, cfg: &SchedCfg) -> RunResult {
         spurious_permille: cfg.spurious_permille,
         max_steps: cfg.max_steps,
         replay: cfg.replay.clone(),
+        // scenarios that carry a promise about *every* schedule (forced cycles) were constructed for atomic
+        // polls: with the reserve | push window open other outcomes are legitimate (a participant blocking on
+        // its own full mailbox before it ever asks, say), so the window stays shut for them
+        split_send_permille: if sc.expect.is_some() { 0 } else { cfg.split_permille },
     });
     let dispatch = tracing::Dispatch::new(world::Capture);
     let guard = tracing::dispatcher::set_default(&dispatch);
